@@ -32,7 +32,7 @@ func (l *zzListener) Close() error   { l.closed = true; return nil }
 func (l *zzListener) Addr() net.Addr { return zzNamedAddr{"192.0.2.10:3868"} }
 
 // zzC15_faults: Server.Serve on an in-memory listener; a faulty connection A (handler panic at message
-// i / malformed message / abrupt EOF), a healthy connection B, 0..2 temporary accept errors and a
+// i / malformed message / abrupt EOF between messages or inside a body), a healthy connection B, 0..2 temporary accept errors and a
 // connection C accepted afterwards; fault placement and malformed bytes case-split / symbolic.
 func zzC15_faults() {
 	d := vAbstractDict()
@@ -67,8 +67,12 @@ func zzC15_faults() {
 	}
 	b.in <- zzPlainMessage(257, 0x80, 0, 500)
 	vQuiesce()
-	fault := vChoice("fault", 3)
+	fault := vChoice("fault", 4)
 	switch fault {
+	case 3: // abrupt disconnect in the middle of a message body
+		part := zzMessageBytes(make([]byte, 8), 0x80, 257, 0)
+		a.in <- part[:24]
+		close(a.in)
 	case 0: // handler panic
 		a.in <- zzPlainMessage(257, 0x80, 0, 0xbad)
 	case 1: // malformed message: 20 symbolic bytes whose declared length is below the header size
@@ -97,12 +101,26 @@ func zzC15_faults() {
 	}()
 	vQuiesce()
 	vAssert(registered, "handlers can still be registered after a fault on some connection")
-	c := zzNewTransport("C")
+	c, dd := zzNewTransport("C"), zzNewTransport("D")
 	l.ch <- zzAccept{c: c}
+	l.ch <- zzAccept{c: dd}
 	vQuiesce()
-	// the other connections continue to be served
-	b.in <- zzPlainMessage(257, 0x80, 0, 501)
+	// the other connections continue to be served; their reads interleave: B's next message arrives in
+	// two fragments around a whole message on C (buffers of different connections must not be shared)
+	bm := zzPlainMessage(257, 0x80, 0, 501)
+	b.in <- bm[:16]
+	vQuiesce()
 	c.in <- zzPlainMessage(257, 0x80, 0, 900)
+	vQuiesce()
+	b.in <- bm[16:]
+	vQuiesce()
+	// the same between the two connections accepted after the fault
+	dm := zzPlainMessage(257, 0x80, 0, 700)
+	dd.in <- dm[:16]
+	vQuiesce()
+	c.in <- zzPlainMessage(257, 0x80, 0, 901)
+	vQuiesce()
+	dd.in <- dm[16:]
 	vQuiesce()
 	vAssert(a.isClosed, "the faulty connection is closed")
 	vAssert(len(served["A"]) == pos, "the faulty connection served exactly the messages before the fault")
@@ -117,6 +135,7 @@ func zzC15_faults() {
 	vAssert(!b.isClosed && len(served["B"]) == 2 && served["B"][0] == 500 && served["B"][1] == 501, "the healthy connection keeps being served")
 	vAssert(len(b.written) == 2, "the healthy connection's requests are answered")
 	vAssert(!serveReturned && !l.closed, "the listener keeps accepting: transient accept errors and connection faults do not stop the server")
-	vAssert(!c.isClosed && len(served["C"]) == 1 && served["C"][0] == 900, "a connection accepted after the faults is served")
+	vAssert(!c.isClosed && len(served["C"]) == 2 && served["C"][0] == 900 && served["C"][1] == 901, "a connection accepted after the faults is served")
+	vAssert(!dd.isClosed && len(served["D"]) == 1 && served["D"][0] == 700, "and so is another one, with its own bytes")
 	vReach("C15_faults")
 }
